@@ -55,9 +55,9 @@ func c06(r *rand.Rand, tier string, vseed int, tr *trace.Buf, tablePath string, 
 	type plan struct{ h, hf int }
 	var plans []plan
 	if tier == "quick" {
-		plans = []plan{{4, vseed % 3}}
+		plans = []plan{{4, vseed % 3}, {10, (vseed + 1) % 3}}
 	} else {
-		plans = []plan{{4, 0}, {4, 1}, {4, 2}, {6, (vseed + 1) % 3}}
+		plans = []plan{{4, 0}, {4, 1}, {4, 2}, {6, (vseed + 1) % 3}, {8, (vseed + 2) % 3}, {10, vseed % 3}}
 	}
 	for _, pl := range plans {
 		var seed [48]uint8
@@ -78,6 +78,12 @@ func c06(r *rand.Rand, tier string, vseed int, tr *trace.Buf, tablePath string, 
 			isComplete[uint32(i)] = true
 		}
 		cur = nil
+		tall := pl.h >= 8
+		if tall { // millions of calls: key generation is not recorded, the needed rows are produced below
+			xmss.VerifHashHook = nil
+			complete = []int{1 + r.Intn(n-1)}
+			isComplete = map[uint32]bool{uint32(complete[0]): true}
+		}
 		x := xmss.NewXMSSFromSeed(seed, uint8(pl.h), xmss.HashFunction(pl.hf), common.SHA256_2X)
 		keygenRows := cur
 		pk := x.GetPK()
@@ -112,6 +118,32 @@ func c06(r *rand.Rand, tier string, vseed int, tr *trace.Buf, tablePath string, 
 		xmss.VerifHashHook = func(hf xmss.HashFunction, typeValue uint32, buf, out []uint8) {
 			cur = append(cur, hrow{alg: int(hf), buf: append([]byte{}, buf...), out: append([]byte{}, out[:32]...)})
 		}
+		if tall {
+			// the rows of the complete leaf and of the tree above the leaves, through the library's own
+			// genLeafWOTS / hashH (recorded and audited like every other row)
+			cur = nil
+			lb := make([]byte, 32)
+			xmss.VerifGenLeaf(xmss.HashFunction(pl.hf), lb, skSeed, pubSeed, uint32(pl.h), uint32(complete[0]))
+			level := make([][]byte, n)
+			for i := range level {
+				level[i] = make([]byte, 32)
+				for j, v := range leaves[i] {
+					level[i][j] = byte(v)
+				}
+			}
+			for ht := 0; len(level) > 1; ht++ {
+				next := make([][]byte, len(level)/2)
+				for k := range next {
+					var addr [8]uint32
+					addr[3], addr[5], addr[6] = 2, uint32(ht), uint32(k)
+					next[k] = make([]byte, 32)
+					xmss.VerifHashH(xmss.HashFunction(pl.hf), next[k], append(append([]byte{}, level[2*k]...), level[2*k+1]...), pubSeed, &addr)
+				}
+				level = next
+			}
+			keep(cur, true)
+			cur = nil
+		}
 		tr.Emit(keyEvent{Ev: "key", Hf: pl.hf, H: pl.h, Seed: ints(seed[:]), Pk: ints(pk[:]), Leaves: leaves, Complete: complete})
 		keyLine := tr.N
 		// signatures at seeded indices (first, one reached by signing, one reached by a jump, last)
@@ -123,6 +155,12 @@ func c06(r *rand.Rand, tier string, vseed int, tr *trace.Buf, tablePath string, 
 			}
 		} else if tier == "quick" {
 			idxs = []int{[]int{0, 1}[r.Intn(2)], 2 + r.Intn(n-2)}
+		}
+		if tall {
+			idxs = []int{255 + r.Intn(2), 256 + r.Intn(n-257), n - 1}
+			if tier == "quick" {
+				idxs = idxs[1:2]
+			}
 		}
 		for _, i := range idxs {
 			if uint32(i) < x.GetIndex() {
